@@ -345,6 +345,8 @@ def run_case(ctx, rng, idx):
         w0 = C.edges[k0][0]
         edits.append(("change-weight-by-one-ulp", lambda g: g.set_weight(*lib_args(kind, k0, rng), math.nextafter(w0, math.inf))))
         edits.append(("change-weight-by-1e-13", lambda g: g.set_weight(*lib_args(kind, k0, rng), w0 + 1e-13)))
+    edits.append(("node-attribute-with-value-None", lambda g: (g.set_attr_to_node_metadata(rng.choice(list(C.nodes)), "checked", None), None)))
+    edits.append(("hyperedge-attribute-with-value-None", lambda g: (g.set_attr_to_edge_metadata(*lib_args(kind, k0, rng), "checked", None), None)))
     edits.append(("metadata-float-by-one-ulp", lambda g: (g.set_attr_to_hypergraph_metadata("x", 0.3), None)))
     # two different strings that only differ in unicode composition (precomposed e-acute vs e + combining accent)
     edits.append(("metadata-string-unicode-composition", lambda g: (g.set_attr_to_hypergraph_metadata("name", "cafe\u0301"), None)))
